@@ -1,14 +1,22 @@
 (* Proofs.SecondCycleCheck — the domain of C11_second_cycle as an executable test on a pipeline
    case of the correspondence (Corr/WriteShow.v input format: ops FS text FS <tab> FS MARK FS <ftab>,
    ops = R<ropts> OPS W<wopts> OPS ...): the text is read, the first written form hs of the
-   object read is computed, and the answer is "D" when file_hypsb and cycle_hypsb hold (then
-   C11_second_cycle says: the second write returns the text of the first), "o" otherwise.
+   object read is computed, and the answer is
+     "D" when file_hypsb and cycle_hypsb hold (then C11_second_cycle says: the second write
+         returns the text of the first);
+     "C" when file_hypsb and cycle_whypsb hold for the first written form, file_hypsb holds for
+         the second written form (the premise of C11_second_cycle_content_partial) and
+         content_okb holds (then the object read after the second cycle has the data of the
+         first re-read, the same data lines are written, and the header items are equal up to
+         numeric equality);
+     "o" otherwise.
    harness/props/c11.py checks on the real lasio that every chain answered "D" does write the
-   same text twice.  Definitions only. *)
+   same text twice and every chain answered "C" writes the same data lines twice.
+   Definitions only. *)
 From Coq Require Import List NArith ZArith Bool String.
 Import ListNotations.
 Require Import PyStr CaseLib Regex NumLit Num HeaderLine Tables SectionParse Sections DataRead Read TextWrap Writer
-  ReadShow WriteShow WriteOptionsProofs WriteDataTextProofs FileRoundTripCheck SecondCycle.
+  ReadShow WriteShow WriteOptionsProofs WriteDataTextProofs FileRoundTripCheck SecondCycle SecondCycleContent.
 Open Scope string_scope.
 Open Scope list_scope.
 Open Scope N_scope.
@@ -36,9 +44,24 @@ Definition domain_flag (i : list N) : list N :=
               | Some hs =>
                   match las_null_text fstr (hs_las hs) with
                   | Some nt =>
-                      if file_hypsb fmtv fmt_pi fstr fhex ro o hs nt && negb (o_ignore_data ro) &&
-                         cycle_hypsb fmtv fstr fz numeq fhex ro o hs nt
-                      then s2l "D" else s2l "o"
+                      if file_hypsb fmtv fmt_pi fstr fhex ro o hs nt && negb (o_ignore_data ro) then
+                        if cycle_hypsb fmtv fstr fz numeq fhex ro o hs nt then s2l "D"
+                        else if cycle_whypsb fmtv fstr fz numeq fhex ro o hs nt && content_okb fstr fz numeq ro hs then
+                          match write fmtv fmt_diff fmt_pi fstr fz numeq o (mkmlas l0 (index_initial_of l0)) with
+                          | WOk t1 _ =>
+                              match read fhex fstr numeq ro t1 with
+                              | ROk l1 =>
+                                  match write_sections fmtv fmt_diff fstr fz numeq (wo_version o) (wo_wrap o) (col_fmt o 0%nat)
+                                          (mkmlas l1 (index_initial_of l1)) with
+                                  | Some hs2 => if file_hypsb fmtv fmt_pi fstr fhex ro o hs2 nt then s2l "C" else s2l "o"
+                                  | None => s2l "o"
+                                  end
+                              | RErr _ => s2l "o"
+                              end
+                          | WErr _ => s2l "o"
+                          end
+                        else s2l "o"
+                      else s2l "o"
                   | None => s2l "o"
                   end
               | None => s2l "o"
